@@ -51,9 +51,9 @@ done_cb(struct mmgr *mm, IMB_JOB *job, void *arg)
                         item_check(it, job, b->prop, mm, "conf");
                         b->checked++;
                         uint32_t l = it->cipher != IMB_CIPHER_NULL ? it->c_len : it->h_len;
-                        cov_hit(b->prop, "%s|%s-%u|%s|d%d|m16=%u|%s|iv%u|tag%u|aad%s|ip%d|pl%d|bits%u",
+                        cov_hit(b->prop, "%s|%s-%u|%s|d%d|m128=%u|%s|iv%u|tag%u|aad%s|ip%d|pl%d|bits%u",
                                 variant_name(mm->variant), cipher_name(it->cipher), it->keylen,
-                                hash_name(it->hash), it->dir, l % 16, len_class(l), it->iv_len, it->tag_len,
+                                hash_name(it->hash), it->dir, l % 128, len_class(l), it->iv_len, it->tag_len,
                                 len_class(it->aad_len), it->inplace, it->pl,
                                 (it->c_len_bits | it->h_len_bits) & 7);
                         if (l > 0)
@@ -230,6 +230,47 @@ eng_conf(void)
                                 cov_count("jobs", (uint64_t) B.n);
                                 if (!mm)
                                         harness_fail("cannot re-create manager");
+                        }
+                }
+                /* ---- systematic residue sweep: EVERY length of a few windows (0.., around 4 KiB where counter bytes
+                 * carry and around 8 KiB), 40 consecutive lengths per batch so that lanes hold neighbouring lengths.
+                 * Tail code of the kernels is selected by the length modulo 16/64/128/256/512, whatever the base. */
+                static const struct { long lo, hi_quick, hi_thorough; } win[] = {
+                        { 0, 703, 2303 }, { 4032, 4255, 4671 }, { 8160, 8223, 8351 }, { 16352, 16415, 16447 } };
+                for (int si = 0; si < ntab && lenlo < 0; si++) {
+                        const struct suite *s = &tab[si];
+                        if (only_suite && strcmp(only_suite, s->name))
+                                continue;
+                        for (unsigned w = 0; w < ARRAY_SZ(win); w++) {
+                                long hi = g_opt.tier ? win[w].hi_thorough : win[w].hi_quick;
+                                for (long l0 = win[w].lo; l0 <= hi; l0 += BATCH_MAX, unit++) {
+                                        if (unit % g_opt.nshards != g_opt.shard)
+                                                continue;
+                                        struct rng ur;
+                                        rng_seed(&ur, g_opt.seed * 999331ULL + (uint64_t) unit * 13 + (uint64_t) si);
+                                        g_case_no = unit;
+                                        B.n = 0;
+                                        for (long l = l0; l < l0 + BATCH_MAX && l <= hi; l++) {
+                                                struct genopt g;
+                                                genopt_default(&g);
+                                                g.slot = B.n;
+                                                g.pl = (l & 1) ? PL_START : PL_END;
+                                                g.len = l;
+                                                g.iv_class = (l % 5 == 0) ? (int) (1 + (l / 5) % 5) : 0;
+                                                if (s->aead || s->cipher != IMB_CIPHER_NULL)
+                                                        item_gen(B.it[B.n], s, NULL, &ur, &g, mm);
+                                                else
+                                                        item_gen(B.it[B.n], NULL, s, &ur, &g, mm);
+                                                item_expect(B.it[B.n]);
+                                                B.n++;
+                                        }
+                                        mm = run_batch(mm, &ur, cfg);
+                                        cov_count("batches", 1);
+                                        cov_count("jobs", (uint64_t) B.n);
+                                        cov_count("sweep_jobs", (uint64_t) B.n);
+                                        if (!mm)
+                                                harness_fail("cannot re-create manager");
+                                }
                         }
                 }
                 mm_free(mm);
